@@ -301,15 +301,121 @@ fn run(args: &Args, rep: &mut Report) {
             |case| serde_json::to_value(case).unwrap(),
         ),
     );
-    let _ = json!(null);
+    let mut acc = Acc::new();
+    check_std_streams(&mut acc);
+    rep.add("std-streams", true, "WinconStream for Stdout / StdoutLock / Stderr / StderrLock in a child process whose streams are pipes: 17 x 4 colour pairs each", vec![acc]);
 }
 
-fn replay(_sub: &str, case: &Value) -> Result<(), String> {
+fn replay(sub: &str, case: &Value) -> Result<(), String> {
+    if sub == "std-streams" {
+        let mut acc = Acc::new();
+        check_std_streams(&mut acc);
+        return match acc.failure {
+            Some(f) => Err(f.message),
+            None => Ok(()),
+        };
+    }
     let case: Case = serde_json::from_value(case.clone()).map_err(|e| format!("bad case: {e}"))?;
     check(&case).map(|_| ())
 }
 
+/// Child mode: exercises the `WinconStream` implementations for the process's
+/// own stdout / stderr (and their locks), which cannot be observed in-process.
+/// One line per call: `<k>|` framed-output `|<returned count>\n`.
+fn std_child(which: &str) {
+    let data: &[u8] = b"da\x1b[1mta";
+    let mut k = 0;
+    for fgi in 0..17u8 {
+        for bgi in [0u8, 5, 12, 16] {
+            let fg = (fgi < 16).then(|| ANSI_COLORS[fgi as usize]);
+            let bg = (bgi < 16).then(|| ANSI_COLORS[bgi as usize]);
+            macro_rules! go {
+                ($s:expr) => {{
+                    let mut s = $s;
+                    let _ = write!(s, "{k}|");
+                    let _ = s.flush();
+                    let n = s.write_colored(fg, bg, data).unwrap_or(usize::MAX);
+                    let _ = writeln!(s, "|{n}");
+                    let _ = s.flush();
+                }};
+            }
+            match which {
+                "stdout" => go!(std::io::stdout()),
+                "stdout-lock" => go!(std::io::stdout().lock()),
+                "stderr" => go!(std::io::stderr()),
+                _ => go!(std::io::stderr().lock()),
+            }
+            k += 1;
+        }
+    }
+}
+
+fn check_std_streams(acc: &mut Acc) {
+    let exe = match std::env::current_exe() {
+        Ok(e) => e,
+        Err(_) => return,
+    };
+    let data: &[u8] = b"da\x1b[1mta";
+    for which in ["stdout", "stdout-lock", "stderr", "stderr-lock"] {
+        let out = match std::process::Command::new(&exe).arg("--std-child").arg(which).stdin(std::process::Stdio::null()).output() {
+            Ok(o) if o.status.success() => o,
+            _ => {
+                acc.class("child-could-not-run");
+                continue;
+            }
+        };
+        let bytes = if which.starts_with("stdout") { out.stdout } else { out.stderr };
+        let mut k = 0;
+        let mut rest: &[u8] = &bytes;
+        for fgi in 0..17u8 {
+            for bgi in [0u8, 5, 12, 16] {
+                acc.eval();
+                let want = MStyle { fg: (fgi < 16).then_some(MColor::Ansi(fgi)), bg: (bgi < 16).then_some(MColor::Ansi(bgi)), ..Default::default() };
+                let head = format!("{k}|").into_bytes();
+                let tail = format!("|{}\n", data.len()).into_bytes();
+                let r = (|| -> Result<(), String> {
+                    let r0 = rest.strip_prefix(head.as_slice()).ok_or_else(|| format!("{which}: record {k} does not start where expected: {}", esc(&rest[..rest.len().min(40)])))?;
+                    let end = r0.windows(tail.len()).position(|w| w == tail.as_slice()).ok_or_else(|| format!("{which}: record {k} has no '|{}' trailer (wrong count returned?): {}", data.len(), esc(&r0[..r0.len().min(60)])))?;
+                    let framed = &r0[..end];
+                    if want.is_plain() {
+                        if framed != data {
+                            return Err(format!("{which}: no colour requested but the output is {}", esc(framed)));
+                        }
+                    } else {
+                        let (pre, suf) = split_framing(framed, data, want)?;
+                        let mut both = pre.to_vec();
+                        both.extend_from_slice(suf);
+                        if pre.is_empty() || suf.is_empty() || !sgr::final_style(&both).is_plain() {
+                            return Err(format!("{which}: framing of record {k} is wrong: {}", esc(framed)));
+                        }
+                    }
+                    rest = &r0[end + tail.len()..];
+                    Ok(())
+                })();
+                match r {
+                    Ok(()) => {
+                        if !want.is_plain() {
+                            acc.nontrivial_distinct();
+                        }
+                    }
+                    Err(m) => {
+                        acc.fail("std-streams", json!({"which": which, "record": k}), m);
+                        return;
+                    }
+                }
+                k += 1;
+            }
+        }
+    }
+    acc.samples.push(json!({"stream": "stdout-lock", "records": 68}));
+}
+
 fn main() {
+    let argv: Vec<String> = std::env::args().collect();
+    if argv.get(1).map(|s| s.as_str()) == Some("--std-child") {
+        std_child(argv.get(2).map(|s| s.as_str()).unwrap_or("stdout"));
+        return;
+    }
     rt::quiet_panics();
     rt::main("C17", RULE, run, &replay)
 }
